@@ -575,7 +575,8 @@ def boundary(chk, w, fx, f):
             ms = re.search(r"\bSET\b(.*?)\bWHERE\b(.*)$", stmt, re.S)
             if m0.group(1) == "UPDATE" and ms and re.search(r"\bmined_height\s*=\s*NULL\b", ms.group(1)):
                 n += 1
-                if re.search(r"\bmined_height\s*(>|<=)\s*(:\w+|\?\d*)", ms.group(2)):
+                if re.search(r"\bmined_height\s*(>|<=)\s*(:\w+|\?\d*)", ms.group(2)) or \
+                        re.search(r"(:\w+|\?\d*)\s*(<|>=)\s*mined_height\b", ms.group(2)):
                     chk.ok("BOUNDARY", "UPDATE %s: transactions are un-mined by their own mined_height" % tbl)
                 else:
                     chk.fail("BOUNDARY", "%s/unmine-selector" % tbl, "the rewind un-mines rows of %s selected by `%s`, not by "
